@@ -307,6 +307,9 @@ impl<'r> BuiltVisitor for StaticSweep<'r> {
     }
 }
 
+/// name prefix of graphs that are asked with the library's default encoder only (see `SweepPlan::run`)
+pub const LIB_DEFAULT_ONLY: &str = "libdefault:";
+
 pub struct SweepPlan {
     pub graphs: Vec<(String, Graph)>,
     pub presentations: Vec<Presentation>,
@@ -336,8 +339,13 @@ impl SweepPlan {
         let queries: Vec<Vec<Query>> = self
             .graphs
             .iter()
-            .map(|(_, g)| {
-                let mut qs = queries_for(g.n, &self.kinds, &self.sems, &self.certs, &self.lists, self.with_lib_default);
+            .map(|(name, g)| {
+                // graphs whose name starts with LIB_DEFAULT_ONLY are asked with the library's default encoder only
+                let lib_only = name.starts_with(LIB_DEFAULT_ONLY);
+                let mut qs = queries_for(g.n, &self.kinds, &self.sems, &self.certs, &self.lists, self.with_lib_default || lib_only);
+                if lib_only {
+                    qs.retain(|q| q.enc == crate::staticq::Enc::LibDefault);
+                }
                 // the exponential encoder is exponential by design: not asked where it needs > 10^6 clauses
                 if crate::universe::exp_clause_bound(g) > 1_000_000 {
                     qs.retain(|q| q.enc != crate::staticq::Enc::ExpCO);
